@@ -113,11 +113,12 @@ def main(d: str, seed: str, tier: str) -> None:
     traced = [r for r in runs if r["events"] and r["spec"].get("look") is None]
     from .mod_corpus import CHUNK
     v = {"results": [], "states": 0}
-    for i in range(0, len(traced), CHUNK):
-        vi = validate(traced[i:i + CHUNK], d / "tlc", tag=f"pairtraces{i // CHUNK}")
+    from .tracecheck import chunks
+    for ci, part in enumerate(chunks(traced, CHUNK)):
+        vi = validate(part, d / "tlc", tag=f"pairtraces{ci}")
         v["results"] += vi["results"]
         v["states"] += vi["states"]
-        (d / "tlc" / f"pairtraces{i // CHUNK}.json").unlink()
+        (d / "tlc" / f"pairtraces{ci}.json").unlink()
     stats = {"twin_pairs": len(tw), "repeat_pairs": len(rp), "subprocess_pairs": sum(1 for t in rp if t[2] is not None), "history_pairs": len(hp),
              "twin_with_cma": sum(1 for a, _ in tw if any(l["engine"].startswith("CMA") for l in a["levels"])),
              "twin_with_local": sum(1 for a, _ in tw if any(l["engine"] == "LOCAL" for l in a["levels"])),
